@@ -374,6 +374,12 @@ def plan_requests(spec, ref):
                 add("unqualified-case", cf, "unqualified", sh, n)
         if m.get("inmsg") or m.get("op"):
             add("hidden-key", m["key"], "plain", sh, n)
+    if fam in ("msgpack", "msgpackrpc"):
+        # a registered name with bytes that are not valid UTF-8 around it (msgpack bin keys)
+        for i, n in enumerate(names[:4]):
+            sh = shape_of(ref.meth[ref.prim[n][0]][1])
+            for form in ("bytes:suffix", "bytes:prefix", "bytes:inside")[i % 3:][:2]:
+                add("bad-utf8", n, form, sh, n)
     if fam not in XMLFAM:
         add("empty", "", "plain", {"arg": None, "bare": False}, "")
     if fam == "http":
@@ -422,7 +428,7 @@ def expectation(spec, ref, r, tns):
             if e2[0] == "run":
                 return ("maybe",) + e2[1:]
         return e
-    if r["form"].startswith("other-ns"):
+    if r["form"].startswith("other-ns") or r["form"].startswith("bytes:"):
         return ("none",)
     if r["kind"] == "tns-qualified":
         e = ref.lookup(r["src"])
@@ -476,6 +482,10 @@ def encode(spec, r, tns):
     if fam == "msgpackrpc":
         import msgpack
         params = [] if sh["arg"] is None else [_argval(sh)]
+        if r["form"].startswith("bytes:"):
+            b = name.encode("utf8")
+            name = {"bytes:suffix": b + b"\xff", "bytes:prefix": b"\xff" + b,
+                    "bytes:inside": b[:1] + b"\xc3" + b[1:]}[r["form"]]
         return msgpack.packb([0, 1, name, params])
     if sh["arg"] is None:
         doc = {name: {}}
@@ -490,6 +500,12 @@ def encode(spec, r, tns):
         import yaml
         return yaml.safe_dump(doc).encode("utf8")
     import msgpack
+    if r["form"].startswith("bytes:"):
+        (k0, v0), = doc.items()
+        b = k0.encode("utf8")
+        kb = {"bytes:suffix": b + b"\xff", "bytes:prefix": b"\xff" + b,
+              "bytes:inside": b[:1] + b"\xc3" + b[1:]}[r["form"]]
+        return msgpack.packb({kb: v0})
     return msgpack.packb(doc)
 
 
